@@ -423,6 +423,827 @@ def corr_rewrite(ctx, R):
                     result=spec_cmdline('console=tty1  root=/dev/mmcblk0p2\trootwait\nsecond line', 'srv', 'img', 2)))
 
 
+# ====================================================================== (ii) end-to-end oracle
+FAT_MBR_TYPES = {0x01, 0x06, 0x0B, 0x0C, 0x0E, 0xEF}
+GPT_BASIC = 'ebd0a0a2-b9e5-4433-87c0-68b6b72699c7'
+GPT_ESP = 'c12a7328-f81f-11d2-ba4b-00a0c93ec93b'
+GPT_LINUX = '0fc63daf-8483-4772-8e79-3d69d8477de4'
+GPT_FAT_TYPES = {GPT_BASIC, GPT_ESP}
+SS = 512
+
+
+def data_of(spec):
+    if 'hex' in spec:
+        return bytes.fromhex(spec['hex'])
+    if 'text' in spec:
+        return spec['text'].encode('utf-8')
+    if 'zero' in spec:
+        return bytes(spec['zero'])
+    return random.Random(spec['seed']).randbytes(spec['len'])
+
+
+def mbr_entry(ptype, first, size):
+    return struct.pack('<B3sB3sII', 0, b'\0\0\0', ptype, b'\0\0\0', first, size)
+
+
+def mbr_sector(entries, boot=None):
+    s = bytearray(boot if boot is not None else bytes(SS))
+    s[218:224] = bytes(6)       # "zero" word and disk timestamp of a modern MBR
+    s[444:446] = bytes(2)       # copy-protect word
+    s[446:510] = bytes(64)
+    for i, e in enumerate(entries):
+        s[446 + 16 * i:462 + 16 * i] = e
+    s[510:512] = b'\x55\xaa'
+    return s
+
+
+def gpt_tables(total, entries, table_entries, disk_guid):
+    """protective MBR, primary header + entries, backup entries + header"""
+    tbl = bytearray(table_entries * 128)
+    for idx, (tguid, pguid, first, last, label) in entries.items():
+        tbl[idx * 128:(idx + 1) * 128] = struct.pack(
+            '<16s16sQQQ72s', uuid.UUID(tguid).bytes_le, uuid.UUID(pguid).bytes_le, first, last, 0,
+            label.encode('utf-16-le'))
+    tsec = (len(tbl) + SS - 1) // SS
+    tcrc = binascii.crc32(bytes(tbl))
+
+    def header(cur, bak, tlba):
+        fields = [b'EFI PART', 0x10000, 92, 0, cur, bak, 2 + tsec, total - 2 - tsec, uuid.UUID(disk_guid).bytes_le,
+                  tlba, table_entries, 128, tcrc]
+        raw = struct.pack('<8sIII4xQQQQ16sQIII', fields[0], fields[1], fields[2], 0, *fields[4:])
+        crc = binascii.crc32(raw)
+        return struct.pack('<8sIII4xQQQQ16sQIII', fields[0], fields[1], fields[2], crc, *fields[4:])
+    return tbl, tsec, header(1, total - 1, 2), header(total - 1, 1, total - 1 - tsec)
+
+
+def part_ranges(case):
+    """number -> (first sector, sectors, kind, type)  in table order"""
+    out = []
+    for p in case['parts']:
+        out.append((p['num'], p['start'], p['sectors'], p['kind'], p['type']))
+    return out
+
+
+def build_image(case):
+    """bytearray of the whole disk described by case (boot FAT empty so far)"""
+    total = case['total']
+    img = bytearray(random.Random(case['fill_seed']).randbytes(total * SS)) if case.get('fill_seed') is not None \
+        else bytearray(total * SS)
+    for p in case['parts']:
+        a, n = p['start'] * SS, p['sectors'] * SS
+        if p['kind'] == 'raw':
+            img[a:a + n] = random.Random(p['seed']).randbytes(n)
+            # make sure it cannot be taken for a FAT volume or a partition table
+            img[a + 510:a + 512] = b'\0\0'
+        else:
+            f = p['fat']
+            vol = mkfat.mkfat(f['type'], f['clusters'], spc=f['spc'])
+            assert len(vol) == n, (len(vol), n)
+            img[a:a + n] = vol
+    if case['style'] == 'mbr':
+        prim = [mbr_entry(0, 0, 0)] * 4
+        for p in case['parts']:
+            if p.get('logical') is None:
+                prim[p['slot']] = mbr_entry(p['type'], p['start'], p['sectors'])
+        ext = case.get('ext')
+        if ext:
+            prim[ext['slot']] = mbr_entry(0x05, ext['start'], ext['sectors'])
+            logs = sorted((p for p in case['parts'] if p.get('logical') is not None), key=lambda p: p['logical'])
+            for i, p in enumerate(logs):
+                # the first EBR is the first sector of the extended partition; first_lba of a
+                # logical partition is relative to its EBR, links are relative to the extended start
+                ebr = ext['start'] if i == 0 else p['start'] - 1
+                e1 = mbr_entry(p['type'], p['start'] - ebr, p['sectors'])
+                if i + 1 < len(logs):
+                    nxt = logs[i + 1]['start'] - 1
+                    e2 = mbr_entry(0x05, nxt - ext['start'], logs[i + 1]['sectors'] + 1)
+                else:
+                    e2 = mbr_entry(0, 0, 0)
+                img[ebr * SS:(ebr + 1) * SS] = mbr_sector([e1, e2], boot=bytes(SS))
+        img[0:SS] = mbr_sector(prim, boot=bytes(img[0:SS]))
+    else:
+        entries = {p['num'] - 1: (p['type'], p['guid'], p['start'], p['start'] + p['sectors'] - 1, p.get('label', ''))
+                   for p in case['parts']}
+        tbl, tsec, h1, h2 = gpt_tables(total, entries, case['gpt_entries'], case['disk_guid'])
+        img[0:SS] = mbr_sector([mbr_entry(0xEE, 1, min(total - 1, 0xFFFFFFFF))], boot=bytes(SS))
+        img[SS:2 * SS] = h1 + bytes(SS - len(h1))
+        img[2 * SS:2 * SS + len(tbl)] = tbl
+        img[(total - 1 - tsec) * SS:(total - 1 - tsec) * SS + len(tbl)] = tbl
+        img[(total - 1) * SS:total * SS] = h2 + bytes(SS - len(h2))
+    return img
+
+
+def populate(img, case):
+    from nobodd.fs import FatFileSystem
+    for p in case['parts']:
+        if p['kind'] != 'fat':
+            continue
+        a, n = p['start'] * SS, p['sectors'] * SS
+        mv = memoryview(img)[a:a + n]
+        with FatFileSystem(mv) as fs:
+            for ent in p['tree']:
+                path = fs.root / ent[1]
+                if ent[0] == 'd':
+                    path.mkdir()
+                else:
+                    path.write_bytes(data_of(ent[2]))
+        mv.release()
+
+
+def make_host(case, hostdir):
+    for ent in case['host']:
+        path = os.path.join(hostdir, ent[1])
+        if ent[0] == 'd':
+            os.makedirs(path, exist_ok=True)
+        elif ent[0] == 'f':
+            os.makedirs(os.path.dirname(path), exist_ok=True)
+            with open(path, 'wb') as f:
+                f.write(data_of(ent[2]))
+        else:
+            os.makedirs(os.path.dirname(path), exist_ok=True)
+            os.symlink(ent[2], path)
+
+
+def fold(parts):
+    """FAT names are case-insensitive: compare trees on case-folded paths"""
+    return tuple(x.lower() for x in parts)
+
+
+def dump_tree(fs, names=None):
+    out = {}
+
+    def walk(d, key):
+        for child in d.iterdir():
+            k = key + (child.name.lower(),)
+            if names is not None:
+                names[k] = child.name
+            if k in out:
+                raise ValueError(f'duplicate directory entry {k}')
+            if child.is_dir():
+                out[k] = ('d',)
+                walk(child, k)
+            else:
+                out[k] = ('f', child.read_bytes())
+    walk(fs.root, ())
+    return out
+
+
+def dump_boot(path, num):
+    from nobodd.disk import DiskImage
+    from nobodd.fs import FatFileSystem
+    with DiskImage(path) as img:
+        with img.partitions[num] as part:
+            with FatFileSystem(part.data) as fs:
+                return dump_tree(fs), fs.fat_type
+
+
+def host_tree(root):
+    """relative posix path tuple -> ('d',)|('f', bytes) below root (symlinks to files followed)"""
+    out = {}
+    for dirpath, dirs, files in os.walk(root):
+        rel = os.path.relpath(dirpath, root)
+        key = () if rel == '.' else tuple(rel.split(os.sep))
+        key = fold(key)
+        for d in dirs:
+            out[key + (d.lower(),)] = ('d',)
+        for f in files:
+            with open(os.path.join(dirpath, f), 'rb') as fh:
+                out[key + (f.lower(),)] = ('f', fh.read())
+    return out
+
+
+def expected_partitions(case):
+    """what detect_partitions should find: (boot, root), None when there is none"""
+    boot = root = None
+    order = sorted(case['parts'], key=lambda p: p['order'])
+    for p in order:
+        if p['kind'] == 'fat':
+            if boot is None:
+                boot = p['num']
+        else:
+            fatish = (p['type'] in FAT_MBR_TYPES) if case['style'] == 'mbr' else (p['type'] in GPT_FAT_TYPES)
+            if not fatish and root is None:
+                root = p['num']
+    return boot, root
+
+
+def parse_size(s):
+    for power, suffix in enumerate(['KB', 'MB', 'GB', 'TB'], start=1):
+        if s.endswith(suffix):
+            from decimal import Decimal
+            return int(Decimal(s[:-2]) * 2 ** (10 * power))
+    return int(s[:-1]) if s.endswith('B') else int(s)
+
+
+def run_prep(argv, debug=False):
+    """nobodd.prep.main(argv) in this process; returns (rc, stdout, stderr, exception info)"""
+    import nobodd.prep as prep
+    out, err = io.StringIO(), io.StringIO()
+    old_loc = prep.CONFIG_LOCATIONS
+    old_dbg = os.environ.pop('DEBUG', None)
+    if debug:
+        os.environ['DEBUG'] = '1'
+    prep.CONFIG_LOCATIONS = ()
+    exc = None
+    rc = None
+    try:
+        with contextlib.redirect_stdout(out), contextlib.redirect_stderr(err):
+            try:
+                rc = prep.main(argv)
+            except SystemExit as e:
+                rc = 2
+                exc = ('SystemExit', str(e.code), '')
+            except Exception as e:
+                rc = 1
+                where = ''
+                for fr in traceback.extract_tb(e.__traceback__):
+                    base = os.path.basename(fr.filename)
+                    if os.sep + 'nobodd' + os.sep in fr.filename:
+                        if base in ('prep.py', 'tools.py') and fr.name != 'main':
+                            where = f'{base[:-3]}.{fr.name}'
+                        elif not where:
+                            where = f'{base[:-3]}.{fr.name}'
+                name = type(e).__name__
+                if isinstance(e, OSError) and e.errno:
+                    import errno as _errno
+                    name += f'({_errno.errorcode.get(e.errno, e.errno)})'
+                exc = (name, str(e), where)
+    finally:
+        prep.CONFIG_LOCATIONS = old_loc
+        os.environ.pop('DEBUG', None)
+        if old_dbg is not None:
+            os.environ['DEBUG'] = old_dbg
+        lg = logging.getLogger('prep')
+        for h in list(lg.handlers):
+            lg.removeHandler(h)
+    return rc, out.getvalue(), err.getvalue(), exc
+
+
+def boot_part(case):
+    b = case['args']['boot']
+    if b is None:
+        b = expected_partitions(case)[0]
+    return b
+
+
+def argv_of(case, tmp, conf_paths):
+    a = case['args']
+    hostdir = os.path.join(tmp, 'host')
+    argv = []
+    if a.get('verbosity'):
+        argv.append(a['verbosity'])
+    if a['size'] is not None:
+        argv += ['--size', a['size']]
+    if a['nbd_host'] is not None:
+        argv += ['--nbd-host', a['nbd_host']]
+    if a['nbd_name'] is not None:
+        argv += ['--nbd-name', a['nbd_name']]
+    if a['cmdline'] != 'cmdline.txt' or a.get('cmdline_explicit'):
+        argv += ['--cmdline', a['cmdline']]
+    if a['boot'] is not None:
+        argv += ['--boot-partition', str(a['boot'])]
+    if a['root'] is not None:
+        argv += ['--root-partition', str(a['root'])]
+    for r in a['remove']:
+        argv += ['--remove', r]
+    for c in a['copy']:
+        argv += ['--copy', os.path.join(hostdir, c)]
+    if a['serial'] is not None:
+        argv += ['--serial=' + a['serial']]
+    for key, opt in (('tftpd_conf', '--tftpd-conf'), ('nbd_conf', '--nbd-conf')):
+        if a[key] == '-':
+            argv += [opt, '-']
+        elif a[key] is not None:
+            argv += [opt, conf_paths[key]]
+    argv.append(os.path.join(tmp, a['image_arg']))
+    return argv
+
+
+def predict_tree(case, before, hostdir, cmdline_out):
+    """the tree the property promises: removals gone, copies present, command line rewritten,
+    everything else as before"""
+    a = case['args']
+    tree = dict(before)
+    for r in a['remove']:
+        key = fold(Path(r).parts)
+        if key in tree:
+            for k in [k for k in tree if k[:len(key)] == key]:
+                del tree[k]
+    for c in a['copy']:
+        src = os.path.join(hostdir, c)
+        name = os.path.basename(src).lower()
+        if os.path.isdir(src):
+            tree[(name,)] = ('d',)
+            for k, v in host_tree(src).items():
+                tree[(name,) + k] = v
+        else:
+            with open(src, 'rb') as f:
+                tree[(name,)] = ('f', f.read())
+    return tree
+
+
+def eval_case(case, R=None, keep=None):
+    """build the image, run nobodd-prep on it, evaluate the property.  Returns list of
+    (signature, description) -- empty when the property holds."""
+    from nobodd.config import Board
+    findings = []
+    info = {}
+    tmp = tempfile.mkdtemp(prefix='c17-case-')
+    try:
+        a = case['args']
+        hostdir = os.path.join(tmp, 'host')
+        os.makedirs(hostdir)
+        make_host(case, hostdir)
+        img = build_image(case)
+        populate(img, case)
+        imgdir = os.path.join(tmp, 'img dir')
+        os.makedirs(imgdir)
+        real_path = os.path.join(imgdir, a['image_name'])
+        with open(real_path, 'wb') as f:
+            f.write(img)
+        if a['image_arg'] != os.path.join('img dir', a['image_name']):
+            # reached through a symbolic link to the directory
+            os.symlink(imgdir, os.path.join(tmp, 'link'))
+        before_bytes = bytes(img)
+        del img
+        conf_paths = {'tftpd_conf': os.path.join(tmp, 'out', 'board.conf'), 'nbd_conf': os.path.join(tmp, 'out', 'nbd.conf')}
+        os.makedirs(os.path.join(tmp, 'out'))
+        exp_boot, exp_root = expected_partitions(case)
+        boot = a['boot'] if a['boot'] is not None else exp_boot
+        root = a['root'] if a['root'] is not None else exp_root
+        expect_error = case.get('expect_error')
+        if boot is not None:
+            before, fat_type = dump_boot(real_path, boot)
+            info['fat_type'] = fat_type
+        argv = argv_of(case, tmp, conf_paths)
+        info['argv'] = argv
+        rc, out, err, exc = run_prep(argv)
+        info['rc'], info['stderr'] = rc, err[-400:]
+        with open(real_path, 'rb') as f:
+            after_bytes = f.read()
+        ranges = {p['num']: (p['start'] * SS, (p['start'] + p['sectors']) * SS) for p in case['parts']}
+        lo, hi = ranges[boot] if boot in ranges else (0, 0)
+        if after_bytes[:lo] != before_bytes[:lo] or after_bytes[hi:len(before_bytes)] != before_bytes[hi:]:
+            off = next(i for i in range(min(len(before_bytes), len(after_bytes)))
+                       if not lo <= i < hi and before_bytes[i] != after_bytes[i]) \
+                if len(after_bytes) >= len(before_bytes) else len(after_bytes)
+            findings.append(('prep.main/outside-boot-partition-changed',
+                             f'byte {off} outside the boot partition (partition {boot}: {lo}..{hi}) changed '
+                             f'(or the file shrank: {len(before_bytes)} -> {len(after_bytes)})'))
+        if expect_error:
+            if rc != 1:
+                findings.append(('prep.main/error-not-reported',
+                                 f'expected failure ({expect_error}) but main returned {rc}: {err[-200:]!r}'))
+            return findings, info
+        if rc != 0:
+            # diagnose on a fresh copy with DEBUG=1 to learn where it failed
+            with open(real_path, 'wb') as f:
+                f.write(before_bytes)
+            for pth in conf_paths.values():
+                if os.path.exists(pth):
+                    os.unlink(pth)
+            rc2, out2, err2, exc2 = run_prep(argv, debug=True)
+            name, msg, where = exc2 if exc2 else ('?', err.strip()[-200:], '?')
+            findings.append((f'prep.main/error/{name}@{where}',
+                             f'nobodd-prep {" ".join(argv[:-1])} IMAGE failed: {name}: {msg} (in {where}); '
+                             f'stderr: {err.strip()[-200:]!r}'))
+            return findings, info
+        # ---- size
+        want_size = parse_size(a['size'])
+        if len(after_bytes) < want_size:
+            findings.append(('prep.main/size', f'image is {len(after_bytes)} bytes, requested {want_size}'))
+        # ---- boot partition tree
+        try:
+            after, _ = dump_boot(real_path, boot)
+        except Exception as e:
+            findings.append(('prep.main/boot-partition-unreadable',
+                             f'boot partition cannot be listed after the run: {type(e).__name__}: {e}'))
+            return findings, info
+        want = predict_tree(case, before, hostdir, None)
+        ckey = fold(Path(a['cmdline']).parts)
+        orig = want.get(ckey)
+        if orig is None or orig[0] != 'f':
+            findings.append(('harness/case', 'case without command-line file'))
+            return findings, info
+        text = orig[1].decode('utf-8')
+        host = a['nbd_host'] if a['nbd_host'] is not None else __import__('socket').getfqdn()
+        name = a['nbd_name'] if a['nbd_name'] is not None else Path(a['image_name']).stem
+        want_cmd = spec_cmdline(text, host, name, root)
+        got_cmd = after.get(ckey)
+        info['cmdline'] = (text, got_cmd[1] if got_cmd else None)
+        if got_cmd is None or got_cmd[0] != 'f' or got_cmd[1] != want_cmd.encode('utf-8'):
+            findings.append(('prep.main/cmdline',
+                             f'command line {text!r} became {got_cmd[1] if got_cmd else None!r}, the property says {want_cmd!r}'))
+        if R is not None:
+            m = T(R.call('rewrite', (host, name, root, text)))
+            if got_cmd is not None and got_cmd[0] == 'f' and got_cmd[1] != m.encode('utf-8'):
+                findings.append(('model/prep.main-cmdline', f'command line {text!r} became {got_cmd[1]!r}, model says {m!r}'))
+        want[ckey] = ('f', want_cmd.encode('utf-8'))
+        if keep is not None:
+            keep['before'], keep['after'], keep['want'] = before, after, want
+        if after != want:
+            removed = [fold(Path(r).parts) for r in a['remove']]
+            copied = [(os.path.basename(c).lower(),) for c in a['copy']]
+            diffs = sorted(set(after) ^ set(want)) + sorted(k for k in set(after) & set(want) if after[k] != want[k])
+            diffs = [k for k in diffs if k != ckey]
+            for k in diffs[:1]:
+                what = ('missing' if k not in after else 'unexpected' if k not in want else 'different content')
+                if any(k[:len(c)] == c for c in copied):
+                    sig, cls = 'prep.main/copied-item', 'copied item'
+                elif any(k[:len(r)] == r for r in removed):
+                    sig, cls = 'prep.main/removed-item', 'item listed for removal'
+                else:
+                    sig, cls = 'prep.main/other-file-changed', 'file that was neither copied nor removed'
+                findings.append((sig, f'{cls} {"/".join(k)}: {what} after the run '
+                                      f'({len(diffs)} differing paths: {["/".join(d) for d in diffs[:4]]})'))
+        # ---- emitted configuration
+        image_abs = os.path.realpath(real_path)
+        outs = {}
+        for key in ('tftpd_conf', 'nbd_conf'):
+            if a[key] is not None and a[key] != '-':
+                with open(conf_paths[key], encoding='utf-8') as f:
+                    outs[key] = f.read()
+        nbd_text = f'[{name}]\nexportname = {image_abs}\n'
+        if a['tftpd_conf'] == '-' or a['nbd_conf'] == '-':
+            rest = out
+            if a['nbd_conf'] == '-':
+                if not rest.endswith(nbd_text):
+                    findings.append(('prep.main/nbd-conf-stdout', f'stdout {out!r} does not end with the share section {nbd_text!r}'))
+                else:
+                    rest = rest[:-len(nbd_text)]
+            if a['tftpd_conf'] == '-':
+                outs['tftpd_conf'] = rest
+        if a['tftpd_conf'] is not None and a['serial'] is not None:
+            btext = outs.get('tftpd_conf', '')
+            sn = case['serial_value']
+            if R is not None:
+                m = T(R.call('board_conf', (sn, image_abs, boot)))
+                if m != btext:
+                    findings.append(('model/prep.main-board', f'board text {btext!r}, model says {m!r}'))
+            got = impl_call(server_boards, btext, tmp)
+            g = got if got[0] != 'ok' else ('ok', [(b.serial, str(b.image), b.partition, b.ip) for b in got[1]])
+            if g != ('ok', [(sn, image_abs, boot, None)]):
+                findings.append(('prep.main/board-readback',
+                                 f'--serial {a["serial"]!r}: emitted {btext!r} is read back by the server as {g}, '
+                                 f'expected serial {sn:#x}, image {image_abs!r}, partition {boot}'))
+        elif a['tftpd_conf'] is not None and outs.get('tftpd_conf', '') != '':
+            findings.append(('prep.main/board-without-serial', f'board text {outs["tftpd_conf"]!r} emitted without --serial'))
+        return findings, info
+    finally:
+        shutil.rmtree(tmp, ignore_errors=True)
+
+
+# ---------------------------------------------------------------------- case generator
+FILE_NAMES = ['config.txt', 'start4.elf', 'fixup4.dat', 'kernel8.img', 'bcm2711-rpi-4-b.dtb', 'README', 'LICENCE.broadcom',
+              'a long file name.txt', 'UPPER.TXT', 'MiXed.Case', 'x', 'é-ü.cfg', 'initrd.img', 'vmlinuz', 'meta-data',
+              'user-data', 'network-config', 'dots.in.name.tar.gz', '日本語.txt', 'boot.scr', 'uboot.env', 'issue.txt',
+              'nobtcmd.txt', 'overlay_map.dtb', 'vc4-kms-v3d.dtbo', 'hat_map.dtb', 'f1', 'f2', 'f3', 'f4', 'f5']
+DIR_NAMES = ['overlays', 'firmware', 'sub', 'Deep Dir', 'd1', 'd2', 'd3', 'EFI', 'BOOT', 'grub', 'x86_64-efi', 'nested',
+             'level3', 'level4', 'ünï', 'lost.found']
+
+
+def gen_tree(rng, prefix, depth, names_used, budget, cluster, out, want_deep=False):
+    """append ('d'|'f', path, data) entries below prefix (a posix relative path or '')"""
+    nfiles = rng.randrange(0, 4)
+    ndirs = rng.randrange(0, 3) if depth > 0 else 0
+    if want_deep and depth > 0:
+        ndirs = max(ndirs, 1)
+    for _ in range(nfiles):
+        if budget[0] <= 0:
+            return
+        nm = rng.choice(FILE_NAMES)
+        key = (prefix + '/' + nm).lower()
+        if key in names_used:
+            continue
+        names_used.add(key)
+        ln = rng.choice([0, 1, 17, 200, cluster - 1, cluster, cluster + 1, 2 * cluster + 5, 3 * cluster + 1])
+        out.append(['f', (prefix + '/' + nm).lstrip('/'), {'seed': rng.randrange(1 << 30), 'len': ln}])
+        budget[0] -= 1
+    for i in range(ndirs):
+        if budget[0] <= 0:
+            return
+        nm = rng.choice(DIR_NAMES)
+        key = (prefix + '/' + nm).lower()
+        if key in names_used:
+            continue
+        names_used.add(key)
+        out.append(['d', (prefix + '/' + nm).lstrip('/')])
+        budget[0] -= 1
+        gen_tree(rng, prefix + '/' + nm, depth - 1, names_used, budget, cluster, out, want_deep and i == 0)
+
+
+def gen_case(rng, force=None):
+    force = force or {}
+    style = force.get('style') or rng.choice(['mbr', 'gpt'])
+    ft = force.get('fat') or rng.choice(['fat12', 'fat16', 'fat32'])
+    spc = rng.choice([1, 2, 4]) if ft != 'fat32' else rng.choice([1, 2])
+    clusters = {'fat12': rng.randrange(150, 500), 'fat16': rng.randrange(300, 700), 'fat32': rng.randrange(300, 700)}[ft]
+    fat = {'type': ft, 'clusters': clusters, 'spc': spc}
+    fat_sectors = len(mkfat.mkfat(ft, clusters, spc=spc)) // SS
+    cluster = spc * SS
+    layout = rng.choice(['FR', 'FR', 'FR', 'RF', 'FRf', 'FMR', 'RFR'] + (['F[R]', '[R]F', 'F[RR]'] if style == 'mbr' else ['F-R', '-FR']))
+    parts = []
+    case = {'style': style, 'parts': parts, 'fill_seed': rng.randrange(1 << 30)}
+    if style == 'gpt':
+        case['gpt_entries'] = rng.choice([128, 128, 16, 8])
+        case['disk_guid'] = str(uuid.UUID(int=rng.getrandbits(128)))
+        lba = 2 + (case['gpt_entries'] * 128 + SS - 1) // SS
+    else:
+        lba = 1
+    slot = 0
+    order = 0
+    in_ext = False
+    logical = 0
+    main_fat_done = False
+    for ch in layout:
+        if ch == '[':
+            in_ext = True
+            case['ext'] = {'slot': slot, 'start': lba + rng.randrange(0, 4)}
+            lba = case['ext']['start']
+            slot += 1
+            continue
+        if ch == ']':
+            in_ext = False
+            case['ext']['sectors'] = lba - case['ext']['start']
+            continue
+        if ch == '-':
+            slot += 1          # an unused GPT entry
+            continue
+        lba += rng.randrange(0, 5)
+        if in_ext:
+            lba += 1           # room for the EBR
+        p = {'order': order}
+        order += 1
+        if ch == 'F':
+            p.update(kind='fat', fat=fat, sectors=fat_sectors, tree=[])
+            p['type'] = rng.choice([0x0C, 0x0B, 0x0E, 0x06, 0x01, 0xEF]) if style == 'mbr' else rng.choice([GPT_BASIC, GPT_ESP])
+            main_fat_done = True
+        elif ch == 'f':
+            f2 = {'type': 'fat12', 'clusters': rng.randrange(40, 90), 'spc': 1}
+            p.update(kind='fat', fat=f2, sectors=len(mkfat.mkfat('fat12', f2['clusters'], spc=1)) // SS,
+                     tree=[['f', 'other.txt', {'seed': rng.randrange(1 << 30), 'len': 700}], ['d', 'keep'],
+                           ['f', 'keep/cmdline.txt', {'text': 'root=/dev/sda1 untouched'}]])
+            p['type'] = 0x0C if style == 'mbr' else GPT_BASIC
+        elif ch == 'M':
+            p.update(kind='raw', sectors=rng.randrange(8, 40), seed=rng.randrange(1 << 30))
+            p['type'] = 0x0C if style == 'mbr' else GPT_BASIC      # FAT type, no FAT content: "maybefat"
+        else:
+            p.update(kind='raw', sectors=rng.randrange(8, 64), seed=rng.randrange(1 << 30))
+            p['type'] = rng.choice([0x83, 0x83, 0x82, 0x07]) if style == 'mbr' else GPT_LINUX
+        p['start'] = lba
+        lba += p['sectors']
+        if in_ext:
+            p['logical'] = logical
+            p['num'] = 5 + logical
+            logical += 1
+        else:
+            p['slot'] = slot
+            p['num'] = slot + 1
+            slot += 1
+        if style == 'gpt':
+            p['guid'] = str(uuid.UUID(int=rng.getrandbits(128) | 1))
+            p['label'] = rng.choice(['', 'boot', 'system-boot', 'writable', 'ESP'])
+        parts.append(p)
+    lba += rng.randrange(0, 6)
+    if style == 'gpt':
+        lba += 1 + (case['gpt_entries'] * 128 + SS - 1) // SS
+    case['total'] = lba
+    # ---- boot partition content
+    bootp = next(p for p in parts if p['kind'] == 'fat' and p['fat'] is fat)
+    names_used = set()
+    tree = bootp['tree']
+    budget = [rng.choice([6, 12, 20, 28])]
+    gen_tree(rng, '', rng.choice([1, 3, 4, 4]), names_used, budget, cluster, tree, want_deep=True)
+    cmd_name = rng.choice(['cmdline.txt', 'cmdline.txt', 'cmdline.txt', 'nobtcmd.txt', 'Kernel Args.cfg'])
+    tree[:] = [e for e in tree if e[1].lower() != cmd_name.lower()]
+    cmd_text = gen_cmdline(rng)
+    if rng.random() < 0.1:
+        cmd_text = ' '.join(rng.choice(['console=tty1', 'root=/dev/sda2', 'quiet', 'x=' + 'y' * 50]) for _ in range(rng.randrange(30, 90)))
+    tree.insert(rng.randrange(len(tree) + 1) if not tree else 0, ['f', cmd_name, {'text': cmd_text}])
+    # creation order must have parents first: stable sort by depth keeps that
+    tree.sort(key=lambda e: e[1].count('/'))
+    existing = {e[1]: e[0] for e in tree}
+    # ---- host items to copy
+    host, copies = [], []
+    top_used = {k.lower() for k in existing if '/' not in k}
+    for _ in range(rng.choice([0, 0, 1, 1, 2, 3])):
+        kind = rng.choice(['file', 'file', 'dir', 'dir', 'overwrite', 'merge', 'link'])
+        if kind == 'overwrite':
+            cands = [k for k, v in existing.items() if v == 'f' and '/' not in k and k != cmd_name and k not in copies]
+            if not cands:
+                continue
+            nm = rng.choice(cands)
+            host.append(['f', nm, {'seed': rng.randrange(1 << 30), 'len': rng.choice([0, 5, cluster, 2 * cluster + 9])}])
+            copies.append(nm)
+        elif kind == 'merge':
+            cands = [k for k, v in existing.items() if v == 'd' and '/' not in k and k not in copies]
+            if not cands:
+                continue
+            nm = rng.choice(cands)
+            host.append(['d', nm])
+            host.append(['f', nm + '/merged-' + str(len(host)) + '.bin', {'seed': rng.randrange(1 << 30), 'len': rng.choice([3, cluster + 1])}])
+            host.append(['d', nm + '/merged dir'])
+            host.append(['f', nm + '/merged dir/inner.txt', {'text': 'inner'}])
+            copies.append(nm)
+        else:
+            nm = rng.choice(['new-' + x for x in FILE_NAMES[:12]] + ['extra', 'payload', 'cloud-init', 'Ünicode', 'with space'])
+            if nm.lower() in top_used:
+                continue
+            top_used.add(nm.lower())
+            if kind == 'file':
+                host.append(['f', nm, {'seed': rng.randrange(1 << 30), 'len': rng.choice([0, 1, 300, cluster, 3 * cluster + 7])}])
+            elif kind == 'link':
+                host.append(['f', 'target-of-' + nm, {'seed': rng.randrange(1 << 30), 'len': 123}])
+                host.append(['l', nm, 'target-of-' + nm])
+            else:
+                sub = []
+                gen_tree(rng, nm, rng.choice([0, 1, 2, 3]), set(), [rng.choice([2, 5, 9])], cluster, sub, want_deep=rng.random() < 0.5)
+                host.append(['d', nm])
+                host += sub
+            copies.append(nm)
+    if rng.random() < 0.06:
+        # a new command-line file is copied in: the rewrite must apply to the copy
+        new_text = gen_cmdline(rng)
+        host.append(['f', cmd_name, {'text': new_text}])
+        copies.append(cmd_name)
+    # ---- removals
+    removes = []
+    cands = [k for k in existing if k != cmd_name]
+    for _ in range(rng.choice([0, 0, 1, 1, 2, 3])):
+        r = rng.random()
+        if r < 0.15 or not cands:
+            removes.append(rng.choice(['missing.txt', 'no/such/dir', 'overlays/none.dtbo']))
+        elif r < 0.25 and removes:
+            removes.append(rng.choice(removes))
+        else:
+            dirs = [k for k in cands if existing[k] == 'd']
+            if dirs and rng.random() < 0.6:
+                removes.append(rng.choice(dirs))
+            else:
+                removes.append(rng.choice(cands))
+    if cmd_name in copies and rng.random() < 0.5:
+        removes.append(cmd_name)
+    # ---- remaining arguments
+    exp_boot, exp_root = expected_partitions(case)
+    nraw = [p['num'] for p in parts if p['kind'] == 'raw']
+    boot = None if (rng.random() < 0.5 and exp_boot == bootp['num']) else bootp['num']
+    root = None if rng.random() < 0.5 else rng.choice(nraw + [rng.randrange(0, 300)])
+    image_bytes = case['total'] * SS
+    size = rng.choice([str(image_bytes), str(image_bytes - 1000), '1B', str(image_bytes + rng.randrange(1, 300000)) + 'B',
+                       '%dKB' % (image_bytes // 1024 + rng.randrange(0, 200)), '0.5MB', '1MB', '3MB', str(image_bytes // 2)])
+    sn = rng.choice([0, 1, 0xFFFFFFFF, 0x10000000, rng.randrange(1 << 32), rng.randrange(1 << 32), rng.randrange(1 << 16)])
+    spell = rng.choice(list(serial_spellings(rng, sn)))[0]
+    serial = rng.choice([None, spell, spell, spell])
+    iname = rng.choice(['disk.img', 'ubuntu-24.04-preinstalled-server-arm64+raspi.img', 'my image.img', 'a=b.img', 'c:d#e;f.img',
+                        '[x].img', 'noext', 'ünï.img', '100%.img'])
+    args = {'size': size, 'nbd_host': rng.choice([None, 'server', 'nbd.example.com', '192.168.1.1', '[fe80::1]']),
+            'nbd_name': rng.choice([None, 'share', 'ubuntu-24.04', 'a/b', 'naïve']),
+            'cmdline': cmd_name, 'cmdline_explicit': rng.random() < 0.3, 'boot': boot, 'root': root,
+            'remove': removes, 'copy': copies, 'serial': serial,
+            'tftpd_conf': rng.choice([None, 'file', 'file', '-']), 'nbd_conf': rng.choice([None, None, 'file', '-']),
+            'verbosity': rng.choice([None, None, '-q', '-v']), 'image_name': iname,
+            'image_arg': rng.choice([os.path.join('img dir', iname)] * 3 + [os.path.join('link', iname),
+                                     os.path.join('img dir', '..', 'img dir', iname)])}
+    case['args'] = args
+    case['host'] = host
+    case['serial_value'] = sn if serial is not None else None
+    if root is None and exp_root is None:
+        case['expect_error'] = 'no partition that is not FAT: root partition cannot be detected'
+    if rng.random() < 0.03:
+        args['copy'] = args['copy'] + ['does-not-exist']
+        case['expect_error'] = 'item to copy does not exist'
+    if AVOID_FS_DEFECTS:
+        avoid_fs_defects(case, cluster)
+    return case
+
+
+def avoid_fs_defects(case, cluster):
+    """Keep the generator away from defects of nobodd/fs.py and nobodd/path.py that belong to
+    C04/C10 (reported there, not here).  Disabled with C17_NO_AVOID=1.
+
+    F3 (FatPath.mkdir does not zero the cluster of the new directory): when the run creates a
+    directory after clusters of files were freed (removed or overwritten files), the old file
+    bytes show up as directory entries.  Avoided by giving zero content to the files that the
+    run removes or overwrites whenever it also creates a directory."""
+    a = case['args']
+    bootp = next(p for p in case['parts'] if p['kind'] == 'fat' and p['order'] == min(
+        q['order'] for q in case['parts'] if q['kind'] == 'fat' and q['fat'] is p['fat']))
+    tree = bootp['tree']
+    existing = {e[1].lower(): e[0] for e in tree}
+    makes_dir = any(e[0] == 'd' and e[1].lower() not in existing for e in case['host'])
+    if not makes_dir:
+        return
+    # the command-line file has text content: do not free its cluster before a mkdir
+    a['remove'] = [r for r in a['remove'] if r.lower() != a['cmdline'].lower()]
+    if a['cmdline'] in a['copy']:
+        a['copy'] = [c for c in a['copy'] if c != a['cmdline']] + [a['cmdline']]
+    freed = [r.lower() for r in a['remove']]
+    over = {e[1].lower() for e in case['host'] if e[0] in ('f', 'l') and e[1].split('/')[0] in a['copy']}
+    for e in tree:
+        if e[0] != 'f' or 'text' in e[2]:
+            continue
+        k = e[1].lower()
+        if k in over or any(k == r or k.startswith(r + '/') for r in freed):
+            ln = e[2].get('len', e[2].get('zero', 0))
+            e[2] = {'zero': ln}
+
+
+def shrink(case, sig, R, budget=60):
+    """greedy reduction of a failing case that keeps the signature"""
+    def fails(c):
+        try:
+            f, _ = eval_case(c, None)
+        except Exception:
+            return False
+        return any(s == sig for s, _ in f)
+    cur = copy.deepcopy(case)
+    changed = True
+    while changed and budget > 0:
+        changed = False
+        cands = []
+        a = cur['args']
+        for i in range(len(a['remove'])):
+            c = copy.deepcopy(cur); del c['args']['remove'][i]; cands.append(c)
+        for i in range(len(a['copy'])):
+            c = copy.deepcopy(cur); del c['args']['copy'][i]; cands.append(c)
+        for key in ('serial', 'tftpd_conf', 'nbd_conf', 'verbosity', 'nbd_name'):
+            if a[key] is not None:
+                c = copy.deepcopy(cur); c['args'][key] = None
+                if key == 'serial':
+                    c['serial_value'] = None
+                cands.append(c)
+        for pi, p in enumerate(cur['parts']):
+            if p['kind'] != 'fat':
+                continue
+            paths = [e[1] for e in p['tree']]
+            for i in reversed(range(len(p['tree']))):
+                e = p['tree'][i]
+                if e[1] == a['cmdline']:
+                    continue
+                if e[0] == 'd' and any(q.startswith(e[1] + '/') for q in paths):
+                    continue
+                c = copy.deepcopy(cur); del c['parts'][pi]['tree'][i]; cands.append(c)
+        for i in reversed(range(len(cur['host']))):
+            e = cur['host'][i]
+            if e[0] == 'd' and any(q[1].startswith(e[1] + '/') for q in cur['host']):
+                continue
+            if e[1] in a['copy']:
+                continue
+            c = copy.deepcopy(cur); del c['host'][i]; cands.append(c)
+        for c in cands:
+            if budget <= 0:
+                break
+            budget -= 1
+            if fails(c):
+                cur = c
+                changed = True
+                break
+    return cur
+
+
+def oracle_e2e(ctx, R):
+    rng = ctx.rng
+    n = 900 if ctx.thorough else 160
+    if ctx.widen:
+        n = max(n, 500)
+    combos = [(s, f) for s in ('mbr', 'gpt') for f in ('fat12', 'fat16', 'fat32')]
+    reported = set()
+    for i in range(n):
+        style, ft = combos[i % len(combos)]
+        case = gen_case(rng, dict(style=style, fat=ft))
+        a = case['args']
+        try:
+            findings, info = eval_case(case, R)
+        except Exception:
+            findings, info = [('harness/eval', 'harness exception: ' + traceback.format_exc()[-1500:])], {}
+        nt = bool(a['remove'] or a['copy'])
+        ctx.case(('e2e', json.dumps(case, sort_keys=True)), nt, f'prep.main-{style}-{ft}')
+        ctx.stat('e2e-remove', len(a['remove'])); ctx.stat('e2e-copy', len(a['copy']))
+        if a['boot'] is None or a['root'] is None:
+            ctx.stat('e2e-autodetect')
+        if a['tftpd_conf'] == '-' or a['nbd_conf'] == '-':
+            ctx.stat('e2e-stdout-conf')
+        if case.get('expect_error'):
+            ctx.stat('e2e-expected-error')
+        for sig, what in findings:
+            if sig in reported:
+                continue
+            reported.add(sig)
+            small = case
+            if sig.startswith('prep.main/'):
+                try:
+                    small = shrink(case, sig, R)
+                except Exception:
+                    small = case
+                f2, _ = eval_case(small, None)
+                what = next((w for s, w in f2 if s == sig), what)
+            ctx.violation(sig, what, dict(api='prep.main', case=small, note='rebuild and re-run: ./check C17 --replay <this file>'))
+    ctx.sample(dict(api='prep.main', argv=['--size', '3MB', '--nbd-host', 'server', '--nbd-name', 'share', '--remove',
+                                          'overlays', '--copy', 'HOST/extra', '--serial=10000000deadbeef',
+                                          '--tftpd-conf', '-', 'IMAGE'],
+                    image='GPT, FAT16 boot partition with a 4-deep tree + raw partition'))
+
+
 def run(ctx, build):
     warnings.simplefilter('ignore')
     import locale
@@ -437,5 +1258,41 @@ def run(ctx, build):
         corr_int_serial(ctx, R)
         corr_board(ctx, R, tmp)
         corr_rewrite(ctx, R)
+        oracle_e2e(ctx, R)
     finally:
         shutil.rmtree(tmp, ignore_errors=True)
+
+
+def replay(ctx, obj):
+    warnings.simplefilter('ignore')
+    r = obj['replay']
+    if r.get('api') == 'prep.main':
+        case = r['case']
+        print('case:', json.dumps(case)[:3000])
+        findings, info = eval_case(case, None)
+        print('argv:', info.get('argv'))
+        print('rc:', info.get('rc'), 'stderr:', info.get('stderr'))
+        for sig, what in findings:
+            print('FAILS', sig, '::', what)
+        return not findings
+    print(json.dumps(r, indent=1)[:3000])
+    import nobodd.config as config
+    if r.get('api') in ('serial', 'serial-oracle', 'serial-range'):
+        got = impl_call(config.serial, r['s'])
+        print('now:', got)
+        return got == ('ok', r['expected']) if 'expected' in r else False
+    if r.get('api') == 'rewrite':
+        import nobodd.prep as prep
+        from nobodd.fs import FatFileSystem
+        img = mkfat.mkfat('fat16', 400, spc=4)
+        with FatFileSystem(memoryview(img)) as fs:
+            (fs.root / 'cmdline.txt').write_bytes(r['text'].encode('utf-8'))
+            conf = argparse.Namespace(cmdline='cmdline.txt', nbd_host=r['host'], nbd_name=r['name'],
+                                      root_partition=r['root'], boot_partition=1, logger=logging.getLogger('c17.replay'))
+            got = impl_call(prep.rewrite_cmdline, fs, conf)
+            if got[0] == 'ok':
+                got = ('ok', (fs.root / 'cmdline.txt').read_bytes().decode('utf-8'))
+        want = spec_cmdline(r['text'], r['host'], r['name'], r['root'])
+        print('now:', got, 'property:', want)
+        return got == ('ok', want)
+    return False
